@@ -673,7 +673,8 @@ class Exec:
         if getattr(self, "auto_inline_local", False) and not re.search(r"^<|^std::|^core::|^alloc::", fn):
             # a function of the crate under analysis that no model covers: execute it from its own MIR
             last = re.sub(r"::<.*?>$", "", fn).split("::")[-1]
-            owner = re.sub(r"::<.*?>$", "", fn).split("::")[-2] if "::" in fn else None
+            parts = re.sub(r"::<.*?>$", "", fn).split("::")
+            owner = parts[-2] if len(parts) >= 2 else None
             cands = [f for n, f in self.mir.functions.items() if re.search(r"(^|::)%s$" % re.escape(last), n) and len(f.args) == len(argv) and not n.startswith("const ")]
             if len(cands) > 1 and owner:
                 cands = [f for f in cands if owner in f.sig or owner in f.name]
